@@ -117,6 +117,7 @@ impl World {
                 FrameKind::Trace(_) => "trace".into(),
                 FrameKind::Finalize(_) => if f.collector { "finalize-pass".into() } else { "finalize-rc".into() },
                 FrameKind::Destroy(_) => if f.collector { "drop-pass".into() } else { "drop-rc".into() },
+                FrameKind::DestroyValue(_) => "drop-unboxed-value".into(),
                 FrameKind::LeafFinalize(_) => "leaf-finalize".into(),
                 FrameKind::LeafDrop(_) => "leaf-drop".into(),
                 FrameKind::Action(_) => "action".into(),
@@ -183,6 +184,7 @@ impl World {
 
     /// C04: after a Cc::drop that ran outside any collection, an object with no Cc left is gone.
     pub fn check_rc_after_drop(&self, target: ObjId, what: &str) {
+        self.sync(); // payloads without an observable destructor are known to be gone only through the allocator
         let mut m = self.m.borrow_mut();
         let c = World::count(&m, target);
         // (an enclosing, still running Cc::drop of the same object will finish the job: e.g. its finalizer upgraded a Weak
@@ -266,6 +268,18 @@ pub fn cb_trace_enter(id: u32, canary: u64) {
         return;
     }
     w.sample_phase(true, "Trace::trace");
+    // the census counts from zero (an earlier trace call may have been cut short by an injected panic)
+    if let Some(node) = unsafe { w.node_of(id) } {
+        let store = unsafe { &*node.store.as_ptr() };
+        let mut edges = Vec::new();
+        store.walk(&mut edges);
+        for e in edges {
+            e.tprobe.set(0);
+        }
+        for e in unsafe { &*node.pins.0.as_ptr() }.iter() {
+            e.tprobe.set(0);
+        }
+    }
     w.fault_point(FaultKind::Trace);
 }
 
@@ -329,7 +343,7 @@ fn finalize_checks(w: &World, id: ObjId, what: &str) -> bool {
     w.stamp_unreachable();
     let mut m = w.m.borrow_mut();
     let ob = &m.objs[id as usize];
-    if ob.stamp != m.batch_id && !ob.tainted {
+    if ob.stamp != m.batch_id {
         let msg = format!("finalize called on {} {} which is reachable from program-held pointers (and has been since this finalization batch began)", what, id);
         drop(m);
         w.fail("O-FIN.b", msg);
@@ -441,7 +455,7 @@ pub fn cb_node_drop(node: &Node) {
             Status::Live => {
                 let r = World::reach(&m);
                 let ob = &m.objs[id as usize];
-                if r[id as usize] && !ob.tainted {
+                if r[id as usize] {
                     problem = Some(("O-REACH.drop", format!("object {} is dropped while it is still reachable from program-held pointers", id)));
                 } else if HAS_FIN && !ob.fin_flag && !ob.tainted {
                     problem = Some(("O-FIN.before-drop", format!("object {} is dropped by the crate without having been finalized", id)));
@@ -468,7 +482,8 @@ pub fn cb_node_drop(node: &Node) {
         m.objs[id as usize].status = Status::Destroying;
         m.dropped_this_pass.push(id);
         m.buf_model.remove(&id);
-        m.frames.push(Frame { kind: FrameKind::Destroy(id), collector, must_be_noop: false });
+        let boxed = st == Status::Live;
+        m.frames.push(Frame { kind: if boxed { FrameKind::Destroy(id) } else { FrameKind::DestroyValue(id) }, collector: collector && boxed, must_be_noop: false });
     }
     if let Some((o, msg)) = problem {
         w.fail(o, msg);
@@ -495,7 +510,7 @@ pub fn cb_destroy_exit(id: u32) {
     if id as usize >= m.objs.len() {
         return;
     }
-    if let Some(pos) = m.frames.iter().rposition(|f| f.kind == FrameKind::Destroy(id)) {
+    if let Some(pos) = m.frames.iter().rposition(|f| f.kind == FrameKind::Destroy(id) || f.kind == FrameKind::DestroyValue(id)) {
         m.frames.truncate(pos);
     }
     let op_now = m.op_index;
@@ -641,7 +656,7 @@ pub fn cb_leaf_drop(addr: usize, bytes: &[u8]) {
             Status::Live => {
                 let r = World::reach(&m);
                 let ob = &m.objs[id as usize];
-                if r[id as usize] && !ob.tainted {
+                if r[id as usize] {
                     problem = Some(("O-REACH.drop", format!("leaf {} is dropped while it is still reachable from program-held pointers", id)));
                 } else if HAS_FIN && !ob.fin_flag && !ob.tainted {
                     problem = Some(("O-FIN.before-drop", format!("leaf {} is dropped by the crate without having been finalized", id)));
